@@ -252,8 +252,8 @@ theorem flsDown_spec (ds : Array Nat) (distnc : Array Int) (mask : Option (Array
     ∀ (fuel s d : Nat), flsDown ds distnc mask x0 fuel s = some d →
       ∃ K, d = iterA ds K s ∧
         (∀ j, j < K → distnc[iterA ds j s]! > x0 ∧ ds[iterA ds j s]! ≠ iterA ds j s ∧
-          maskAt mask (iterA ds j s) = true) ∧
-        (distnc[d]! ≤ x0 ∨ ds[d]! = d ∨ maskAt mask d = false) := by
+          ds[iterA ds j s]! ≠ ds.size ∧ maskAt mask (iterA ds j s) = true) ∧
+        (distnc[d]! ≤ x0 ∨ ds[d]! = d ∨ ds[d]! = ds.size ∨ maskAt mask d = false) := by
   intro fuel
   induction fuel with
   | zero => intro s d h; simp [flsDown] at h
@@ -262,22 +262,24 @@ theorem flsDown_spec (ds : Array Nat) (distnc : Array Int) (mask : Option (Array
     simp only [flsDown] at h
     by_cases h1 : distnc[s]! > x0
     · rw [if_pos h1] at h
-      by_cases h2 : ds[s]! = s ∨ maskAt mask s = false
+      by_cases h2 : ds[s]! = s ∨ ds[s]! = ds.size ∨ maskAt mask s = false
       · rw [if_pos h2] at h
         have : s = d := Option.some.inj h
         subst this
         exact ⟨0, rfl, fun j hj => by omega, Or.inr h2⟩
       · rw [if_neg h2] at h
         have h2a : ds[s]! ≠ s := fun hh => h2 (Or.inl hh)
+        have h2c : ds[s]! ≠ ds.size := fun hh => h2 (Or.inr (Or.inl hh))
         have h2b : maskAt mask s = true := by
           cases hm : maskAt mask s with
           | true => rfl
-          | false => exact absurd (Or.inr hm) h2
+          | false => exact absurd (Or.inr (Or.inr hm)) h2
         obtain ⟨K, hd, hpre, hend⟩ := ih _ _ h
         refine ⟨K + 1, by rw [hd]; rfl, ?_, hend⟩
         intro j hj
         cases j with
-        | zero => exact ⟨by simpa [iterA] using h1, by simpa [iterA] using h2a, by simpa [iterA] using h2b⟩
+        | zero => exact ⟨by simpa [iterA] using h1, by simpa [iterA] using h2a, by simpa [iterA] using h2c,
+            by simpa [iterA] using h2b⟩
         | succ j => exact hpre j (by omega)
     · rw [if_neg h1] at h
       have : s = d := Option.some.inj h
